@@ -45,6 +45,12 @@ CLAIMED = {
    text="Bounded model checking: every nsi_* measure of Network found by introspection (with its key / typical_weight variants, directed variants where implemented) is executed symbolically on a network and on its split (weights>0, proportion in (0,1), link attributes>0 symbolic). Degree-type measures use symbolic adjacency bits, rational measures of higher degree and path-based measures are decided per concrete labelled topology (all graphs up to the bound). z3 shows the equalities the statement demands (global, per node incl. both twins, pairwise on untouched pairs).",
    note="Bounds: bits n<=4 undirected / n<=3 directed; all labelled topologies n<=4 (5 thorough). Exact reals; shims validated against the unpatched library on SmallTestNetwork for every measure and variant each run. Outside: eigenvector centrality, spreading, histograms, Arenas/Newman random-walk betweenness.",
    ref="DESIGN.md §3 C02"),
+ "C01": dict(
+   engine="H",
+   technique="bounded model checking (z3, QF_LIA) of call histories over an effect system extracted from the current sources (AST abstract interpretation with the real MRO: reads/writes of attributes, mutation-counter arithmetic, resolved __cache_state__ and per-method attrs); every sat history is replayed on real objects against a twin with cleared caches",
+   text="Bounded model checking of cache coherence: for every class below Cached with a fixture and every cached method, z3 searches for a history construct / query / <=k public mutators / query in which the second query's cache key equals the first although an attribute in the method's (over-approximated) read set was written. Candidates are replayed on real objects with two distinct argument sets per mutator and the argument patterns defaults / key / typical_weight; only reproduced differences are reported.",
+   note="Bounds: k<=1 quick, k<=2 thorough; 17 classes with fixtures. unsat is relative to the effect abstraction (getattr-based access and foreign-object state beyond igraph edge attributes not seen). Spectral measures (ARPACK random start vector) cannot be compared and are reported inconclusive. Values are not checked here, only coherence.",
+   ref="DESIGN.md §3 C01"),
 }
 NA_DEFAULT = "check not built yet in this round (see DESIGN.md §6 for the planned obligation)"
 def main():
@@ -74,6 +80,8 @@ def main():
          "engines": [
            {"name": "P", "path": "vf/pe.py", "serves_properties": sorted(k for k,v in CLAIMED.items() if "P" in v["engine"]),
             "kind_free_text": "proxy-value symbolic execution of the real Python methods (SV/SB scalars in object ndarrays, sparse/igraph stand-ins, exhaustive forking explorer with solver feasibility checks), z3 back end"},
+           {"name": "H", "path": "vf/heng.py", "serves_properties": ["C01"],
+            "kind_free_text": "effect extraction (Python ast + real MRO) and z3 BMC of cache-key/read-set versions over mutator histories, with real-object replay"},
            {"name": "K", "path": "vf/kern.py", "serves_properties": sorted(k for k,v in CLAIMED.items() if "K" in v["engine"]),
             "kind_free_text": "guarded state-merging symbolic interpreter over Cython's parse tree of the repo's numerics.pyx (+ clang JSON AST for src_numerics.c), z3 back end"},
          ],
